@@ -3,6 +3,9 @@
 import json, os, subprocess
 
 CLAIMED = {
+ "C06": dict(design="5.2/C06", technique="Coq proof over the renderer + terminal (tape) model; differential harness on the real renderer's token stream; screen oracle evaluated in Coq on the real output",
+             text="The renderer model (flush/write/alt/clear/print/resize/stop mirrored from standard_renderer.go) equals the real renderer token for token on generated histories; the real token stream is applied to the Coq terminal model and the Spec (view occupies exactly the right rows, nothing stale below, rows above untouched, cursor at column 0; alt screen: first n rows, rest blank) is evaluated after every render for both cursor-visibility conventions. F3 (shrinking frame erased its last line) was found this way and repaired. See evidence theorems list for the flush/Sync theorems proved in this revision.",
+             note="Trusted: Coq kernel + vm_compute; harness + tokenizer; the VT model is the stated xterm subset, no real terminal in the loop; width-1 printable glyphs only in the theorems (wide runes / embedded SGR outside); inline resizes and the deprecated scroll-area API not claimed. No axioms."),
  "C08": dict(design="5.1/C08", technique="Coq proof over the decoder model + kernel-checked table facts; key table regenerated from key.go and compared with the frozen documented table (tie); differential harness with Spec evaluated on real output",
              text="Tie_KeyTable: the table extracted from key.go on every run equals the frozen documented table; table facts (distinct, non-empty keys = documented keys) by computation; the decode(encode evs) = expect evs statement is evaluated in Coq on the real decoder's output for every table entry (+alt) x successor classes, every control byte in text, boundary scalars and random well-formed streams; the model equals the implementation on all of them and on malformed streams.",
              note="Trusted: Coq kernel + vm_compute; goextract; harness; frozen RefTable.v as the documentation-side oracle. Stream theorem C08_stream: see evidence theorems list for what is proved in this revision. No axioms."),
